@@ -37,19 +37,19 @@ Definition race_threads : list thr :=
 
 (* pinned DeleteMapping: Get, Delete index, Delete record, RemoveFromList *)
 Definition race_sched_pinned : list nat := [0;0;0;0; 1; 0;0;0;0; 2;2;2;2; 1;1;1; 3;3]%nat.
-(* repaired: Get, SetNX guard, Get index, Delete index, Delete record, Delete guard, RemoveFromList *)
-Definition race_sched_fixed : list nat := [0;0;0;0; 1; 0;0;0;0;0;0;0; 2;2;2;2; 1;1;1;1;1; 3;3]%nat.
+(* repaired: create = SetNX counter, Incr, SetNX index, Set record, Append;
+   delete = Get, SetNX guard, Get index, Delete index, Delete record, Delete guard, RemoveFromList *)
+Definition race_sched_fixed : list nat := [0;0;0;0;0; 1; 0;0;0;0;0;0;0; 2;2;2;2;2; 1;1;1;1;1; 3;3]%nat.
 
 Lemma race_threads_fresh : forall t, In t race_threads -> fresh_thr t.
 Proof.
-  intros t [<-|[<-|[<-|[<-|[]]]]]; (split; [reflexivity|split; [reflexivity|split; [reflexivity|]]]);
-    intros x Hx; cbn in Hx; intuition (subst; discriminate).
+  intros t [<-|[<-|[<-|[<-|[]]]]]; (split; [reflexivity|split; reflexivity]).
 Qed.
 
 (* pinned code: client 2's create succeeds, its mapping is never deleted, yet the late second delete of mapping 1
    removes client 2's index entry: the name resolves to nothing and is claimable by a third party *)
 Lemma pinned_delete_reclaim_refuted :
-  let s := drun false true none_legacy none_legacy empty_store race_threads race_sched_pinned in
+  let s := drun false true false none_legacy none_legacy empty_store race_threads race_sched_pinned in
   map out (snd s) = [[RDeleted; RCreated 1]; [RDeleted]; [RCreated 2]; [RErr ENotFound]] /\
   recs (fst s) 2 = Some {| r_name := host_a; r_client := 2; r_target := 22; r_status := StActive; r_exp := 0 |} /\
   idx (fst s) host_a = None /\
@@ -58,20 +58,20 @@ Proof. vm_compute. repeat split; reflexivity. Qed.
 
 (* the same callers on the repaired code, same race: the late delete finds the index pointing elsewhere and leaves it *)
 Lemma fixed_delete_reclaim_run :
-  let s := drun true true none_legacy none_legacy empty_store race_threads race_sched_fixed in
+  let s := drun true true true none_legacy none_legacy empty_store race_threads race_sched_fixed in
   map out (snd s) = [[RDeleted; RCreated 1]; [RDeleted]; [RCreated 2]; [RRouted 1 host_a_port 2 2 22]] /\
   idx (fst s) host_a = Some 2 /\
   stale_release (log (fst s)) = false.
 Proof. vm_compute. repeat split; reflexivity. Qed.
 
-(* ---- id duplication: Incr as get-then-set (hybrid.Storage.Incr) ---------------------------------------------- *)
+(* ---- id duplication: Incr as get-then-set (hybrid.Storage.Incr before d88dca0) ---------------------------------------------- *)
 Definition dup_threads : list thr :=
   [ init_thr 1 [OCreate nm_a nm_base 11] []; init_thr 2 [OCreate nm_b nm_base 22] []; init_thr 9 [OLookup host_a 5] [] ].
 Definition dup_sched : list nat := [0;1;0;1; 0;0;0; 1;1;1; 2;2]%nat.
 
 (* both creates draw id 1; client 2's record overwrites client 1's; "a.t.io" — claimed by client 1 — routes to client 2 *)
 Lemma nonatomic_incr_refuted :
-  let s := drun true false none_legacy none_legacy empty_store dup_threads dup_sched in
+  let s := drun true false false none_legacy none_legacy empty_store dup_threads dup_sched in
   map out (snd s) = [[RCreated 1]; [RCreated 1]; [RRouted 1 host_a 1 2 22]] /\
   In (EvClaim host_a 1 1) (log (fst s)).
 Proof. vm_compute. split; [reflexivity|]. repeat (first [left; reflexivity | right]). Qed.
@@ -83,10 +83,19 @@ Definition reset_threads : list thr :=
 Definition reset_sched : list nat := [0;0;0;0; 1; 2;2;2;2; 3;3]%nat.
 
 Lemma counter_reset_refuted :
-  let s := drun true true none_legacy none_legacy empty_store reset_threads reset_sched in
+  let s := drun true true false none_legacy none_legacy empty_store reset_threads reset_sched in
   map out (snd s) = [[RCreated 1]; [RReset]; [RCreated 1]; [RRouted 1 host_a 1 2 22]] /\
   In (EvClaim host_a 1 1) (log (fst s)).
 Proof. vm_compute. split; [reflexivity|]. repeat (first [left; reflexivity | right]). Qed.
+
+(* the same callers on the repaired generateMappingID (counter key created without a deadline before Incr): the clock
+   passing the default data TTL changes nothing, the second create draws id 2 and "a.t.io" still routes to client 1 *)
+Definition reset_sched_fixed : list nat := [0;0;0;0;0; 1; 2;2;2;2;2; 3;3]%nat.
+Lemma counter_reset_harmless_run :
+  let s := drun true true true none_legacy none_legacy empty_store reset_threads reset_sched_fixed in
+  map out (snd s) = [[RCreated 1]; [RReset]; [RCreated 2]; [RRouted 1 host_a 1 1 11]] /\
+  cttl (fst s) = false /\ next (fst s) = 2.
+Proof. vm_compute. repeat split; reflexivity. Qed.
 
 (* ---- an owner's delete, run to completion without interference and without storage failures ------------------ *)
 Section Solo.
@@ -95,7 +104,7 @@ Section Solo.
   Fixpoint solo (k : nat) (t : thr) (s : shared) : thr * shared :=
     match k with
     | O => (t, s)
-    | S k' => let '(t', s') := dstep true true reg cloud t s in solo k' t' s'
+    | S k' => let '(t', s') := dstep true true true reg cloud t s in solo k' t' s'
     end.
 
   Lemma delete_alone c i m rest h o s :
